@@ -694,30 +694,86 @@ func (r *pathRun) sample(end string) map[string]any {
 	return map[string]any{"end": end, "decisions": len(r.decisions), "inputs_model": vec, "path_condition": pcs, "asserts": r.asserts, "instructions": r.steps}
 }
 
-// Run explores all paths of the harness.
-func (ex *Explorer) Run() error {
-	ex.startT = time.Now()
-	nw := ex.cfg.Workers
-	if nw <= 0 {
-		nw = 1
+// workerPool keeps initialised workers (interpreter with package init done,
+// solver process) alive across explorations of the same program.
+type workerPool struct {
+	prog    *ssa.Program
+	pkg     *ssa.Package
+	workers []*worker
+	want    map[string]bool
+	setup   func(i *interpreter)
+	initS   float64
+}
+
+func newWorkerPool(prog *ssa.Program, pkg *ssa.Package, n int, want map[string]bool, setup func(i *interpreter)) (*workerPool, error) {
+	p := &workerPool{prog: prog, pkg: pkg, want: want, setup: setup}
+	if n <= 0 {
+		n = 1
 	}
-	ex.push(workItem{})
+	t0 := time.Now()
+	p.workers = make([]*worker, n)
+	errs := make([]error, n)
 	var wg sync.WaitGroup
-	errs := make(chan error, nw)
-	for k := 0; k < nw; k++ {
+	for k := 0; k < n; k++ {
 		wg.Add(1)
 		go func(id int) {
 			defer wg.Done()
-			w, err := ex.newWorker(id)
+			i := newInterpreter(prog, sizes64)
+			i.fnCount = map[*ssa.Function]int64{}
+			i.initPackage(pkg, want)
+			if setup != nil {
+				setup(i)
+			}
+			s, err := NewSolver("z3")
 			if err != nil {
-				errs <- err
-				ex.mu.Lock()
-				ex.stopped = true
-				ex.cond.Broadcast()
-				ex.mu.Unlock()
+				errs[id] = err
 				return
 			}
-			defer w.solver.Close()
+			p.workers[id] = &worker{id: id, i: i, solver: s}
+		}(k)
+	}
+	wg.Wait()
+	for _, e := range errs {
+		if e != nil {
+			return nil, e
+		}
+	}
+	p.initS = time.Since(t0).Seconds()
+	return p, nil
+}
+
+func (p *workerPool) Close() {
+	for _, w := range p.workers {
+		if w != nil {
+			w.solver.Close()
+		}
+	}
+}
+
+// Run explores all paths of the harness with a private pool.
+func (ex *Explorer) Run() error {
+	pool, err := newWorkerPool(ex.prog, ex.cfg.Pkg, ex.cfg.Workers, ex.cfg.WantInit, ex.cfg.Setup)
+	if err != nil {
+		return err
+	}
+	defer pool.Close()
+	return ex.RunWith(pool)
+}
+
+// RunWith explores all paths of the harness on the given pool.
+func (ex *Explorer) RunWith(pool *workerPool) error {
+	ex.startT = time.Now()
+	ex.push(workItem{})
+	var wg sync.WaitGroup
+	for _, w := range pool.workers {
+		wg.Add(1)
+		go func(w *worker) {
+			defer wg.Done()
+			w.ex = ex
+			q0, e0, w0 := w.solver.queries, w.solver.errs, w.solver.wall
+			for f := range w.i.fnCount {
+				delete(w.i.fnCount, f)
+			}
 			for {
 				it, ok := ex.pop()
 				if !ok {
@@ -727,9 +783,9 @@ func (ex *Explorer) Run() error {
 				ex.done()
 			}
 			ex.mu.Lock()
-			ex.queries += int64(w.solver.queries)
-			ex.solverErrs += int64(w.solver.errs)
-			ex.solverWall += w.solver.wall
+			ex.queries += int64(w.solver.queries - q0)
+			ex.solverErrs += int64(w.solver.errs - e0)
+			ex.solverWall += w.solver.wall - w0
 			for fn, n := range w.i.fnCount {
 				ex.fnCount[fn.String()] += n
 			}
@@ -739,30 +795,10 @@ func (ex *Explorer) Run() error {
 				}
 			}
 			ex.mu.Unlock()
-		}(k)
+		}(w)
 	}
 	wg.Wait()
-	select {
-	case err := <-errs:
-		return err
-	default:
-	}
 	return nil
-}
-
-func (ex *Explorer) newWorker(id int) (*worker, error) {
-	i := newInterpreter(ex.prog, sizes64)
-	i.fnCount = map[*ssa.Function]int64{}
-	want := ex.cfg.WantInit
-	i.initPackage(ex.cfg.Pkg, want)
-	if ex.cfg.Setup != nil {
-		ex.cfg.Setup(i)
-	}
-	s, err := NewSolver("z3")
-	if err != nil {
-		return nil, err
-	}
-	return &worker{id: id, i: i, solver: s, ex: ex}, nil
 }
 
 func (ex *Explorer) totalPaths() int64 {
